@@ -372,7 +372,7 @@ pub fn run(tier: Tier) -> i32 {
                 let c5 = super::c05::Case { shapes: lists[i].clone(), rank_pattern, sampling_override, via_router: i % 16 == 0, rotation: i % 3 };
                 let case = Case::Shapes(c5.clone());
                 ctx.eval(1);
-                let viol = check(&case);
+                let viol = crate::common::run_case(|| serde_json::to_value(&case).unwrap(), || check(&case));
                 for (sig, what) in viol {
                     ctx.report(Violation { signature: sig, what, case: serde_json::to_value(&case).unwrap(), weight: lists[i].len() as u64 });
                 }
@@ -390,7 +390,7 @@ pub fn run(tier: Tier) -> i32 {
     par_range(ctx.threads, bf.len(), |i| {
         let case = Case::RuleJson(bf[i].clone(), 0);
         ctx.eval(1);
-        for (sig, what) in check(&case) {
+        for (sig, what) in crate::common::run_case(|| serde_json::to_value(&case).unwrap(), || check(&case)) {
             ctx.report(Violation { signature: format!("body-filter-shape:{sig}"), what, case: serde_json::to_value(&case).unwrap(), weight: 1 });
         }
         let r: Rule = serde_json::from_value(bf[i].clone()).unwrap();
@@ -416,7 +416,7 @@ pub fn run(tier: Tier) -> i32 {
                 let req = extended_request(&probe, &rc, ext);
                 ctx.eval(1);
                 req_distinct.insert_str(&serde_json::to_string(&req).unwrap_or_default());
-                for (sig, what) in check_request(&router, &req) {
+                for (sig, what) in crate::common::run_case(|| serde_json::to_value(&Case::Request(bits, probe.clone(), ext)).unwrap(), || check_request(&router, &req)) {
                     ctx.report(Violation { signature: sig, what, case: serde_json::to_value(&Case::Request(bits, probe.clone(), ext)).unwrap(), weight: 1 });
                 }
             }
